@@ -989,6 +989,9 @@ def _build_constant(
                 )
             else:
                 return _build(parsed.body, parent, **kwargs)  # type: ignore[attr-defined]
+    if isinstance(node.value, (float, complex)):
+        # Infinity has no literal: write it as an overflowing one, like `ast.unparse` does.
+        return repr(node.value).replace("inf", "1e309")
     return {type(...): lambda _: "..."}.get(type(node.value), repr)(node.value)
 
 
